@@ -6,7 +6,8 @@ use std::{thread};
 #[cfg(not(rws_verif))]
 use std::sync::{Arc, mpsc, Mutex};
 #[cfg(rws_verif)]
-use crate::verif::{thread, sync::{Arc, mpsc, Mutex}};
+#[allow(unused_imports)]
+use crate::verif::{thread, sync::*};
 
 pub struct ThreadPool {
     _workers: Vec<Worker>,
